@@ -76,6 +76,76 @@ pub fn sigma13() -> Vec<Event> {
     v
 }
 
+/// MIXSEQ: one machine whose alphabet mixes *every kind* of call on one context
+/// -- processed requests and non-requests, decode-only calls, length probes,
+/// accessor and UUID stores, and encoder calls (valid and refused) -- so that
+/// state cached by one kind of call and misused by another kind is reachable.
+/// 20 message types (responses longer than 32 bytes), 4 vendor sets.
+pub fn mixed_machine() -> Machine {
+    let a = DST;
+    let cfg = Cfg {
+        addr: a,
+        msg_types: (0..20).map(|i| 0x40 + i as u8).collect(),
+        vendors: vec![(0, 0x1414, 4), (1, 0xDEADBEEF, 9), (0, 0x8086, 0), (1, 0x0000_1414, 4)],
+    };
+    let rq = |cmd: u8, d: &[u8]| forge_request(SRC, a, 0, false, cmd, d);
+    let good_geid = rq(0x02, &[]);
+    let mut frag_start = raw_frame(SRC, a, T_PCI, &[0x5A; 100]);
+    frag_start[7] = 0x88;
+    fix_pec(&mut frag_start);
+    let mut frag_mid = raw_frame(SRC, a, T_PCI, &[0x5B; 200]);
+    frag_mid[7] = 0x08;
+    fix_pec(&mut frag_mid);
+    let bad_seteid = flip(rq(0x01, &[0, 0x33]), 12, 0x40);
+    let bad_geid = flip(good_geid.clone(), good_geid.len() - 1, 0x01);
+    let bad_vendor = flip(raw_frame(SRC, a, T_PCI, &[0x14, 0x14, 1, 2]), 10, 0x80);
+    use EncCall::*;
+    let enc = |call: EncCall, dst: u8| Event::Encode { call, dst };
+    let alphabet = vec![
+        // processed requests
+        Event::Process(rq(0x01, &[0, SRC])),
+        Event::Process(rq(0x01, &[1, 0x7E])),
+        Event::Process(rq(0x01, &[3, 0x55])),
+        Event::Process(good_geid.clone()),
+        Event::Process(rq(0x03, &[])),
+        Event::Process(rq(0x04, &[0xFF])),
+        Event::Process(rq(0x05, &[])),
+        Event::Process(rq(0x06, &[0])),
+        Event::Process(rq(0x06, &[3])),
+        // processed non-requests and corrupted packets
+        Event::Process(forge_response(0x34, a, 0, 0x01, 0, &[0x00, 0x56, 0x00])),
+        Event::Process(raw_frame(SRC, a, T_PCI, &[0x14, 0x14, 1, 2])),
+        Event::Process(frag_start.clone()),
+        Event::Process(frag_mid),
+        Event::Process(bad_seteid),
+        Event::Process(bad_geid.clone()),
+        // decode-only
+        Event::Decode(good_geid.clone()),
+        Event::Decode(frag_start),
+        Event::Decode(bad_vendor),
+        // length probes: a good header, the same byte 0 with another command code, a bigger count
+        Event::GetLength(good_geid[..3].to_vec()),
+        Event::GetLength(vec![good_geid[0], 0x0E, good_geid[2]]),
+        Event::GetLength(vec![good_geid[0], 0x0F, 0xF0, 0x21]),
+        // stores
+        Event::SetUuid(U1),
+        Event::SetEidReq(0x56),
+        Event::SetEidResp(0x41),
+        // encoder calls on the same context
+        enc(ReqGetEid, SRC),
+        enc(ReqSetEid { op: 0, eid: 0x56 }, 0x34),
+        enc(Vendor { fmt: 0, data: 0x1414, num: 1, msg: vec![0x51; 4] }, 0x34),
+        enc(Vendor { fmt: 0, data: 0x1414, num: 1, msg: vec![0x53; 260] }, 0x34),
+        enc(Vendor { fmt: 1, data: 0x0000_1414, num: 1, msg: vec![0x56; 4] }, 0x34),
+        enc(RespGetEid { cc: 0, ty: 0, idty: 2, fair: true }, SRC),
+        enc(RespSetEid { cc: 0, assign: 1, alloc: 1 }, SRC),
+        enc(RespVersion { cc: 0 }, SRC),
+        enc(RespMsgTypes { cc: 0, types: vec![0xBB; 31] }, SRC),
+        enc(RespUuid { cc: 0, uuid: [0xCC; 16] }, SRC),
+    ];
+    Machine { cfg, init: vec![], alphabet }
+}
+
 fn c13_filter(d: &Diff, _h: &[Event]) -> bool {
     matches!(d.aspect, Aspect::Eids | Aspect::Resp(0x01) | Aspect::Resp(0x02) | Aspect::Probe(0x01) | Aspect::Probe(0x02))
 }
@@ -121,6 +191,7 @@ pub fn run_c13(run: &mut Run) {
     }
     c13_accessor_values(run);
     c13_deviation_inputs(run);
+    stateless(run, "C13", "MIXSEQ (every kind of call on one context)", &mixed_machine(), depth, &c13_filter);
     // full-domain breadth: every ordered pair of assignments over all EIDs 0x01..=0xFE
     let n1 = 254u64 * 2;
     run.sweep_chunked("every sequence of length <= 2 over Set EID(Set|Force, e), all e in 0x01..=0xFE", n1 + n1 * n1, |acc, lo, hi| {
@@ -348,6 +419,7 @@ pub fn run_c15(run: &mut Run) {
             crosscheck_stateright(run, &format!("sigma15 on configuration {}", k), &m, &st);
         }
     }
+    stateless(run, "C15", "MIXSEQ (every kind of call on one context)", &mixed_machine(), if thorough { 5 } else { 4 }, &c15_filter);
     // message-type lists: every length x lanes
     let total: u64 = (0..=30u64).map(|l| 256 * l.max(1) * 3).sum();
     run.sweep("message-type lists of every length 0..=30 x lanes x 3 backgrounds", total, |acc, i| {
@@ -613,6 +685,7 @@ pub fn run_c14(run: &mut Run) {
             }
         }
     });
+    stateless(run, "C14", "MIXSEQ (every kind of call on one context)", &mixed_machine(), if run.tier.thorough() { 5 } else { 4 }, &c14_filter);
     // (c) value breadth on n in {1, 2}
     run.sweep("value breadth: all 65 536 PCI ids, IANA lanes x 4 backgrounds, all 65 536 numeric values, n in {1,2}", (65536 + 256 * 4 * 4 + 65536) * 2, |acc, i| {
         let two = i % 2 == 1;
@@ -865,6 +938,9 @@ pub fn run_c12(run: &mut Run) {
         one12(acc, &spec12(responder, s), &pkt, i);
     });
     c12_histories(run);
+    // cross-kind histories: the response produced at the last step must be the reference's
+    // (framing, addressing, command code; the instance id is K-C12-IID's business)
+    stateless(run, "C12", "MIXSEQ (every kind of call on one context)", &mixed_machine(), if thorough { 4 } else { 3 }, &|d: &Diff, _h: &[Event]| matches!(d.aspect, Aspect::Resp(_)));
     // (c) parameter breadth
     run.sweep("Set EID (3 operations) x EID 0x01..=0xFE; version query 0..=255; every selector < n for n in {1,2,16}; x 3 states x 3 address pairs", (3 * 254 + 256 + 19) * 3 * 3, |acc, i| {
         let mut ix = Ix(i);
@@ -921,6 +997,9 @@ fn c12_histories(run: &mut Run) {
 }
 
 pub fn replay_c12(case: &Value) -> Result<ReplayOut, String> {
+    if case["check"].as_str() == Some("history") {
+        return replay_filtered(case, &|d: &Diff, _h: &[Event]| matches!(d.aspect, Aspect::Resp(_)));
+    }
     let spec: CtxSpec = get_de(case, "spec")?;
     let pkt = get_hex(case, "request")?;
     let j = judge_c12(&spec, &pkt);
